@@ -103,6 +103,8 @@ pub struct InputMod {
     pub mod_token: syn::token::Mod,
     pub ident: syn::Ident,
     pub brace_token: syn::token::Brace,
+    /// `#![..]` / `//!` at the start of the module body
+    pub inner_attrs: Vec<syn::Attribute>,
     pub items: Vec<ModItem>,
 }
 
@@ -121,6 +123,9 @@ impl ToTokens for InputMod {
         }
         push_tokens!(stream, self.vis, self.mod_token, self.ident);
         self.brace_token.surround(stream, |stream| {
+            for attr in &self.inner_attrs {
+                push_tokens!(stream, attr);
+            }
             for item in &self.items {
                 item.to_tokens(stream);
             }
@@ -247,6 +252,7 @@ fn parse_mod(
     if lookahead.peek(syn::token::Brace) {
         let content;
         let brace_token = syn::braced!(content in input);
+        let inner_attrs = content.call(syn::Attribute::parse_inner)?;
 
         let mut items = vec![];
 
@@ -260,6 +266,7 @@ fn parse_mod(
             mod_token,
             ident,
             brace_token,
+            inner_attrs,
             items,
         })
     } else {
